@@ -1,16 +1,17 @@
 CONSTANTS
-  W = 1
-  Limit = 1
+  W = 2
+  Limit = 4
   L = 1
   Uds = {}
-  MaxConns = 2
+  MaxConns = 9
   MaxFaults = 0
-  MaxCmds = 3
-  MaxErrs = 1
+  MaxCmds = 0
+  MaxErrs = 0
   MaxBare = 0
-  WakeAt = 2
+  WakeAt = 5
   IgnoreUnknownIdx = TRUE
   UnlinkOnDeregister = FALSE
+  ResumeClearsBackoff = TRUE
   IncBeforeSend = FALSE
   NoClearOnLimit = FALSE
   ResumeSkipsAcceptAll = FALSE
@@ -21,5 +22,6 @@ CONSTANTS
   PauseKeepsRegistered = FALSE
 SPECIFICATION Spec
 VIEW View
+INVARIANTS TypeOK C01_Conservation C01_ServedOnce C01_NoSilentDrop C02_Bound C02_NoForcedSend C03_NoLostWake C04_RoundRobin C05_ListenerLive C05_UdsReachable C05_ConnErrNoDelay C05_TimerHasTimeout C08_NoPanic C08_NoSpin C08_NoGhostBit C08_NoDupHandles C08_FaultReportedOnce
 PROPERTIES Steps
 CHECK_DEADLOCK FALSE
